@@ -129,9 +129,16 @@ class CallMixin:
     def dataify(self, v: V) -> V:
         """Objects entering a symbolic container are stored by value (VStruct)."""
         if isinstance(v, VTuple):
-            return VTuple([self.dataify(x) for x in v.items])
+            return VTuple([self.dataify(x) for x in v.items], getattr(v, "names", None))
         if isinstance(v, VRef):
             cell = self.heap()[v.addr]
+            if cell.native is not None and cell.cls == "xml.etree.ElementTree.Element":
+                # an output element stored in a symbolic sequence: only its tag is kept
+                tag = cell.fields.get("tag")
+                o = VOpaque(self.path.const("xmlout", vals.usort("XmlOut")), "XmlOut")
+                if isinstance(tag, VStr):
+                    self.path.assume(z3.Function("XmlOut.tag", vals.usort("XmlOut"), STR)(o.t) == tag.t)
+                return o
             if isinstance(cell.cls, ClassInfo) and cell.val is None and cell.native is None:
                 _, fk = vals.STRUCT_RESOLVER(cell.cls.qualname)
                 fields = {}
@@ -246,6 +253,8 @@ class CallMixin:
             return self.class_getattr(obj.cls, name, obj)
         if isinstance(obj, VStr):
             return VBound(obj, VNative(None, "str." + name))
+        if isinstance(obj, VTuple) and getattr(obj, "names", None) and name in obj.names:
+            return obj.items[obj.names.index(name)]
         if isinstance(obj, (VTuple, VList, VMap, VSet, VConstDict)):
             return VBound(obj, VNative(None, "container." + name))
         if isinstance(obj, VModule):
@@ -321,6 +330,8 @@ class CallMixin:
                     return r
         if inst is not None and isinstance(inst, VRef) and inst.addr in self.symbolic_objs:
             raise Unsupported(f"field {name!r} of symbolic {cls.qualname} is not declared in the typing sidecar")
+        if self.spec_mode:
+            return vals.BOTTOM
         self.raise_builtin("AttributeError")
 
     def setattr(self, obj, name, v):
